@@ -4,6 +4,7 @@ package sam
 
 import (
 	"bytes"
+	"fmt"
 	"strconv"
 	"strings"
 )
@@ -137,6 +138,127 @@ func thmRecordRoundTrip(s *SAM, key string) {
 	_, _, _, _ = g, err, e10, key
 }
 
+//@ theorem C03.readerRoundtrip
+//@   props C03
+//@   requires s != nil
+//@   requires len(s.Qname) > 0 ==> s.Qname[0] != '@'
+//@   requires cleanStr(s.Qname) && cleanStr(s.Rname) && cleanStr(s.Cigar) && cleanStr(s.Rnext) && cleanStr(s.Seq) && cleanStr(s.Qual)
+//@   requires forall k string :: has(s.Tags, k) ==> tagDomain(k, s.Tags[k])
+//@   loop 1
+//@     invariant 0 <= m && m <= len(texts) && len(texts) == len(s.Tags)
+//@     invariant m < len(texts) ==> 11 + m < splitN(text, 9) && splitS(text, 9, 11 + m) == e10 + tws(texts, m)
+//@     invariant m == len(texts) ==> splitN(text, 9) == 11 + m
+//@     invariant forall j int :: {splitF(text, 9, j)} 11 <= j && j < 11 + m ==> splitF(text, 9, j) == texts[j - 11]
+//@     invariant forall j int :: {texts[j]} 0 <= j && j < m ==> texts[j] == splitF(text, 9, j + 11)
+//@   loop 2
+//@     invariant n == K && (n > 0 ==> err == Z2[0].1 && same(g, Z2[0].0.S) && hh == Z2[0].0.H)
+// The same through the public reader: the record is written by Write and the bytes are read back by ReaderHeader
+// (one line, one item, which is the result of parseLine on the line's fields - ReaderHeader's record-item contract).
+// A record whose text fields are free of TAB/CR/LF, with any integer fields and any optional fields of the supported
+// types (names colon-free; A a byte other than TAB/CR/LF, Z free of TAB/CR/LF), written by Write, is one line whose
+// TAB-separated fields parse back (parseLine) into an identical record: same mandatory fields, same tag names, each
+// tag with the same dynamic type and the same content (stated for an arbitrary tag name key).
+func thmReaderRoundTrip(s *SAM, key string) {
+	buf := &bytes.Buffer{}
+	s.Write(buf)
+	text := strings.TrimSuffix(buf.String(), "\n")
+	fields := strings.Split(text, "\t")
+	e0 := len(s.Qname)
+	e1 := e0 + 1 + len(strconv.Itoa(int(s.Flag)))
+	e2 := e1 + 1 + len(s.Rname)
+	e3 := e2 + 1 + len(strconv.Itoa(s.Pos))
+	e4 := e3 + 1 + len(strconv.Itoa(s.Mapq))
+	e5 := e4 + 1 + len(s.Cigar)
+	e6 := e5 + 1 + len(s.Rnext)
+	e7 := e6 + 1 + len(strconv.Itoa(s.Pnext))
+	e8 := e7 + 1 + len(strconv.Itoa(s.Tlen))
+	e9 := e8 + 1 + len(s.Seq)
+	e10 := e9 + 1 + len(s.Qual)
+	//@ assert len(text) == e10 + tw(texts, len(texts)) && len(texts) == len(s.Tags)
+	//@ assert forall x int :: 0 <= x && x < len(text) ==> text[x] == buf.out[x]
+	//@ assert forall j int :: 0 <= j && j < len(texts) ==> cleanStr(texts[j])
+	//@ assert forall j int :: 0 <= j && j < len(texts) ==> tagOK(texts[j])
+	//@ assert splitS(text, 9, 0) == 0 && splitE(text, 9, 0) == e0
+	//@ assert splitS(text, 9, 1) == e0 + 1 && splitE(text, 9, 1) == e1
+	//@ assert splitS(text, 9, 2) == e1 + 1 && splitE(text, 9, 2) == e2
+	//@ assert splitS(text, 9, 3) == e2 + 1 && splitE(text, 9, 3) == e3
+	//@ assert splitS(text, 9, 4) == e3 + 1 && splitE(text, 9, 4) == e4
+	//@ assert splitS(text, 9, 5) == e4 + 1 && splitE(text, 9, 5) == e5
+	//@ assert splitS(text, 9, 6) == e5 + 1 && splitE(text, 9, 6) == e6
+	//@ assert splitS(text, 9, 7) == e6 + 1 && splitE(text, 9, 7) == e7
+	//@ assert splitS(text, 9, 8) == e7 + 1 && splitE(text, 9, 8) == e8
+	//@ assert splitS(text, 9, 9) == e8 + 1 && splitE(text, 9, 9) == e9
+	//@ assert len(texts) == 0 ==> len(text) == e10
+	//@ assert tw(texts, 0) == 0
+	//@ assert len(texts) > 0 ==> e10 < len(text)
+	//@ assert len(texts) > 0 ==> buf.out[e10 + tw(texts, 0)] == 9
+	//@ assert len(texts) > 0 ==> text[e10] == 9
+	//@ assert splitS(text, 9, 10) == e9 + 1 && splitE(text, 9, 10) == e10
+	for m := 0; m < len(s.Tags); m++ {
+		//@ assert text[e10 + tw(texts, m)] == 9
+		//@ assert e10 + tws(texts, m) + len(texts[m]) <= len(text)
+		//@ assert forall x int :: e10 + tws(texts, m) <= x && x < e10 + tws(texts, m) + len(texts[m]) ==> buf.out[x] == texts[m][x - (e10 + tws(texts, m))]
+		//@ assert forall x int :: e10 + tws(texts, m) <= x && x < e10 + tws(texts, m) + len(texts[m]) ==> text[x] == texts[m][x - (e10 + tws(texts, m))]
+		//@ assert tw(texts, m + 1) == tws(texts, m) + len(texts[m])
+		//@ assert m + 1 < len(texts) ==> text[e10 + tw(texts, m + 1)] == 9
+		//@ assert m + 1 == len(texts) ==> e10 + tws(texts, m) + len(texts[m]) == len(text)
+		//@ assert forall x int :: e10 + tws(texts, m) <= x && x < e10 + tws(texts, m) + len(texts[m]) ==> text[x] != 9
+		//@ assert splitE(text, 9, 11 + m) == e10 + tws(texts, m) + len(texts[m])
+		//@ assert len(splitF(text, 9, 11 + m)) == len(texts[m])
+		//@ assert forall j int :: {splitF(text, 9, 11 + m)[j]} 0 <= j && j < len(texts[m]) ==> splitF(text, 9, 11 + m)[j] == text[e10 + tws(texts, m) + j]
+		//@ assert forall j int :: {splitF(text, 9, 11 + m)[j]} 0 <= j && j < len(texts[m]) ==> splitF(text, 9, 11 + m)[j] == texts[m][j]
+		//@ assert strEq(splitF(text, 9, 11 + m), texts[m])
+	}
+	// the mandatory fields are the renderings
+	//@ assert splitN(text, 9) == 11 + len(texts)
+	//@ assert strEq(splitF(text, 9, 0), s.Qname) && strEq(splitF(text, 9, 2), s.Rname) && strEq(splitF(text, 9, 5), s.Cigar)
+	//@ assert strEq(splitF(text, 9, 6), s.Rnext) && strEq(splitF(text, 9, 9), s.Seq) && strEq(splitF(text, 9, 10), s.Qual)
+	//@ assert strEq(splitF(text, 9, 1), itoa(s.Flag)) && strEq(splitF(text, 9, 3), itoa(s.Pos)) && strEq(splitF(text, 9, 4), itoa(s.Mapq))
+	//@ assert strEq(splitF(text, 9, 7), itoa(s.Pnext)) && strEq(splitF(text, 9, 8), itoa(s.Tlen))
+	//@ assert forall j int :: {splitF(text, 9, j)} 11 <= j && j < splitN(text, 9) ==> tagOK(splitF(text, 9, j))
+	//@ assert len(fields) == 11 + len(texts) && forall j int :: {fields[j]} {splitF(text, 9, j)} 0 <= j && j < len(fields) ==> fields[j] == splitF(text, 9, j)
+	//@ assert atoiOK(fields[1]) && atoiOK(fields[3]) && atoiOK(fields[4]) && atoiOK(fields[7]) && atoiOK(fields[8])
+	//@ assert forall j int :: 11 <= j && j < len(fields) ==> tagOK(fields[j])
+	//@ assert forall j int :: {fields[j]} 11 <= j && j < len(fields) ==> exists k string :: has(s.Tags, k) && isTagText(fields[j], k, s.Tags[k])
+	// the stream is that one line, terminated by LF
+	//@ assert len(buf.out) == len(text) + 1 && buf.out[len(text)] == 10
+	//@ assert forall x int :: 0 <= x && x < len(buf.out) - 1 ==> buf.out[x] != 10 && buf.out[x] != 13
+	//@ assert lnN(arr(buf.out), len(buf.out)) >= 1
+	//@ assert lnT(arr(buf.out), len(buf.out), 0) == len(text)
+	//@ assert lnN(arr(buf.out), len(buf.out)) == 1
+	//@ assert len(text) > 0 && buf.out[len(text) - 1] != 13
+	//@ assert lnE(arr(buf.out), len(buf.out), 0) == len(text)
+	//@ assert !lblank(arr(buf.out), len(buf.out), 0) && nbl(arr(buf.out), len(buf.out), 1) == 1
+	//@ assert buf.out[0] != '@'
+	//@ assert text == lnStr(arr(buf.out), len(buf.out), 0)
+	//@ assert samOK(splitA(text, 9), splitN(text, 9))
+	var g *SAM
+	var hh *string
+	var err error
+	n := 0
+	for sh, e := range ReaderHeader(buf) {
+		if n == 0 {
+			g, hh, err = sh.S, sh.H, e
+		}
+		n++
+	}
+	//@ assert n == 1 && hh == nil
+	//@ assert err == nil && g != nil
+	//@ assert samParsed(g.Qname, g.Flag, g.Rname, g.Pos, g.Mapq, g.Cigar, g.Rnext, g.Pnext, g.Tlen, g.Seq, g.Qual, maphas(g.Tags), mapval(g.Tags), splitA(text, 9), splitN(text, 9))
+	//@ assert g.Qname == s.Qname && g.Rname == s.Rname && g.Cigar == s.Cigar && g.Rnext == s.Rnext && g.Seq == s.Seq && g.Qual == s.Qual
+	//@ assert g.Flag == s.Flag && g.Pos == s.Pos && g.Mapq == s.Mapq && g.Pnext == s.Pnext && g.Tlen == s.Tlen
+	//@ assert forall k string :: has(s.Tags, k) ==> exists j int :: 11 <= j && j < len(fields) && isTagText(fields[j], k, s.Tags[k])
+	//@ assert forall k string :: has(s.Tags, k) ==> has(g.Tags, k)
+	//@ assert forall j int :: {fields[j]} 11 <= j && j < len(fields) ==> exists k string :: has(s.Tags, k) && tname(fields[j]) == k && sameDyn(tval(fields[j]), s.Tags[k])
+	//@ assert forall k string :: has(g.Tags, k) ==> exists j int :: 11 <= j && j < len(fields) && tname(fields[j]) == k && g.Tags[k] == tval(fields[j])
+	//@ assert forall k string :: has(g.Tags, k) ==> has(s.Tags, k)
+	// for an arbitrary tag name `key` (a parameter of the theorem): same presence, same dynamic type, same content
+	//@ assert has(s.Tags, key) <==> has(g.Tags, key)
+	//@ assert has(g.Tags, key) ==> exists j int :: 11 <= j && j < len(fields) && tname(fields[j]) == key && g.Tags[key] == tval(fields[j]) && sameDyn(tval(fields[j]), s.Tags[key])
+	//@ assert has(s.Tags, key) ==> sameDyn(g.Tags[key], s.Tags[key])
+	_, _, _, _, _, _ = g, err, e10, key, hh, fields
+}
+
 //@ theorem C03.headersVerbatim
 //@   props C03
 //@   requires len(h1) >= 1 && h1[0] == '@' && len(h2) >= 1 && h2[0] == '@'
@@ -220,4 +342,59 @@ func thmHeadersCRLF(h1, h2 string) {
 	//@ assert len(deref(x1)) == len(h1) && forall j int :: 0 <= j && j < len(h1) ==> deref(x1)[j] == h1[j]
 	//@ assert len(deref(x2)) == len(h2) && forall j int :: 0 <= j && j < len(h2) ==> deref(x2)[j] == h2[j]
 	_, _, _, _ = x1, x2, e1, e2
+}
+
+//@ theorem C06.recordCRLF
+//@   props C06 C03
+//@   requires len(x) > 0 && x[0] != '@'
+//@   requires forall j int :: 0 <= j && j < len(x) ==> x[j] != 10 && x[j] != 13
+//@   loop 1
+//@     invariant n1 == K && (n1 > 0 ==> e1 == Z1[0].1 && same(g1, Z1[0].0.S) && h1 == Z1[0].0.H)
+//@   loop 2
+//@     invariant n2 == K && (n2 > 0 ==> e2 == Z2[0].1 && same(g2, Z2[0].0.S) && h2 == Z2[0].0.H)
+// A record line x (free of CR/LF, not a header) terminated by LF and the same
+// line terminated by CRLF are each yielded as exactly one item, and both items
+// are the result of parseLine on the TAB-separated fields of x: accepted or
+// rejected alike (samOK), and when accepted the records stand in the same
+// relation samParsed to the same field array, which fixes every mandatory
+// field and the optional-field map.
+func thmRecordCRLF(x string) {
+	b1 := &bytes.Buffer{}
+	fmt.Fprintf(b1, "%s\n", x)
+	b2 := &bytes.Buffer{}
+	fmt.Fprintf(b2, "%s\r\n", x)
+	//@ assert len(b1.out) == len(x) + 1 && b1.out[len(x)] == 10
+	//@ assert len(b2.out) == len(x) + 2 && b2.out[len(x)] == 13 && b2.out[len(x) + 1] == 10
+	//@ assert lnN(arr(b1.out), len(b1.out)) >= 1 && lnN(arr(b2.out), len(b2.out)) >= 1
+	//@ assert lnT(arr(b1.out), len(b1.out), 0) == len(x) && lnT(arr(b2.out), len(b2.out), 0) == len(x) + 1
+	//@ assert lnN(arr(b1.out), len(b1.out)) == 1 && lnN(arr(b2.out), len(b2.out)) == 1
+	//@ assert lnE(arr(b1.out), len(b1.out), 0) == len(x) && lnE(arr(b2.out), len(b2.out), 0) == len(x)
+	//@ assert !lblank(arr(b1.out), len(b1.out), 0) && nbl(arr(b1.out), len(b1.out), 1) == 1
+	//@ assert !lblank(arr(b2.out), len(b2.out), 0) && nbl(arr(b2.out), len(b2.out), 1) == 1
+	//@ assert splitN(x, 9) >= 1 && x == lnStr(arr(b1.out), len(b1.out), 0)
+	//@ assert x == lnStr(arr(b2.out), len(b2.out), 0)
+	var g1, g2 *SAM
+	var h1, h2 *string
+	var e1, e2 error
+	n1 := 0
+	for sh, e := range ReaderHeader(b1) {
+		if n1 == 0 {
+			g1, h1, e1 = sh.S, sh.H, e
+		}
+		n1++
+	}
+	n2 := 0
+	for sh, e := range ReaderHeader(b2) {
+		if n2 == 0 {
+			g2, h2, e2 = sh.S, sh.H, e
+		}
+		n2++
+	}
+	//@ assert n1 == 1 && n2 == 1 && h1 == nil && h2 == nil
+	//@ assert (e1 == nil <==> samOK(splitA(x, 9), splitN(x, 9))) && (e2 == nil <==> samOK(splitA(x, 9), splitN(x, 9)))
+	//@ assert e1 == nil ==> g1 != nil && samParsed(g1.Qname, g1.Flag, g1.Rname, g1.Pos, g1.Mapq, g1.Cigar, g1.Rnext, g1.Pnext, g1.Tlen, g1.Seq, g1.Qual, maphas(g1.Tags), mapval(g1.Tags), splitA(x, 9), splitN(x, 9))
+	//@ assert e2 == nil ==> g2 != nil && samParsed(g2.Qname, g2.Flag, g2.Rname, g2.Pos, g2.Mapq, g2.Cigar, g2.Rnext, g2.Pnext, g2.Tlen, g2.Seq, g2.Qual, maphas(g2.Tags), mapval(g2.Tags), splitA(x, 9), splitN(x, 9))
+	//@ assert e1 == nil ==> g1.Qname == g2.Qname && g1.Flag == g2.Flag && g1.Rname == g2.Rname && g1.Pos == g2.Pos && g1.Mapq == g2.Mapq && g1.Cigar == g2.Cigar
+	//@ assert e1 == nil ==> g1.Rnext == g2.Rnext && g1.Pnext == g2.Pnext && g1.Tlen == g2.Tlen && g1.Seq == g2.Seq && g1.Qual == g2.Qual
+	_, _, _, _, _, _ = g1, g2, h1, h2, e1, e2
 }
